@@ -29,6 +29,7 @@ fn main() {
             match comp {
                 "lru" => seq::lru::replay(&behaviours, &mut out),
                 "kb" => seq::kb::replay(&behaviours, &mut out),
+                "query" => seq::query::replay(&behaviours, &mut out),
                 "handler" => handler::run_behaviours(&behaviours, &mut out),
                 _ => Err(format!("unknown component {comp}")),
             }
@@ -40,6 +41,7 @@ fn main() {
             match comp {
                 "lru" => seq::lru::drive(seed, n, &mut out),
                 "kb" => seq::kb::drive(seed, n, &mut out),
+                "query" => seq::query::drive(seed, n, &mut out),
                 _ => Err(format!("unknown component {comp}")),
             }
         }
